@@ -14,6 +14,7 @@ CHECKS = {
     "C07": "mc.checks.tablefam",
     "C08": "mc.checks.c08",
     "C10": "mc.checks.c10",
+    "C17": "mc.checks.c17",
     "C19": "mc.checks.c19",
 }
 
